@@ -47,6 +47,7 @@ enum {
     F_POP_FRONT_N_HUGE,
     F_HUGE_LIST,
     F_GIANT_ERASE,
+    F_GIANT_SHRINK,
     F_SLICED_SWAP,
     F_SORT_TIES,
     F_COPY_REALLOC,
@@ -1728,6 +1729,68 @@ static bool run_giant_erase_case(void) {
     return true;
 }
 
+/* one case per -O2 stage run: 2^29+16 eight-byte elements (4 GiB + 128 bytes live) in a list with 4096 spare slots, then
+ * shrink_to_fit: the new block has exactly the live size and every element keeps its value (the copy really moves 4 GiB) */
+static bool run_giant_shrink_case(void) {
+    struct mon_rng *r = &mon_case_rng;
+    size_t n = ((size_t)1 << 29) + 16 + (size_t)mon_below(r, 16);
+    s_op = "giant-shrink";
+    mon_fp(0x61A8);
+    memset(s_hblk, 0, sizeof(s_hblk));
+    s_hacq = s_hrel = 0;
+    struct aws_array_list l;
+    if (aws_array_list_init_dynamic(&l, &s_huge_alloc, n + 4096, sizeof(uint64_t))) {
+        mon_count("giant_shrink_skipped_no_address_space", 1);
+        return false;
+    }
+    static const size_t MARK_AT[] = {0, 1, 15, 16, 17, 1000, ((size_t)1 << 28) + 3, ((size_t)1 << 29) - 1, (size_t)1 << 29, ((size_t)1 << 29) + 1, ((size_t)1 << 29) + 15};
+    enum { NM = sizeof(MARK_AT) / sizeof(MARK_AT[0]) };
+    uint64_t last = 0xEEEEEEEE11111111ULL, v;
+    if (aws_array_list_set_at(&l, &last, n - 1)) {
+        mon_violation("C09:huge:growth-refused", "set_at(%zu) on a list with capacity %zu failed", n - 1, n + 4096);
+        aws_array_list_clean_up(&l);
+        return true;
+    }
+    for (size_t i = 0; i < NM; ++i) {
+        v = 0xABCD000000000000ULL + i;
+        aws_array_list_set_at(&l, &v, MARK_AT[i]);
+    }
+    if (aws_array_list_shrink_to_fit(&l)) {
+        /* the second 4 GiB block may not be available: not a verdict */
+        mon_count("giant_shrink_skipped_no_address_space", 1);
+        aws_array_list_clean_up(&l);
+        return false;
+    }
+    if (aws_array_list_length(&l) != n || aws_array_list_capacity(&l) != n || l.current_size != n * sizeof(uint64_t) || !l.data ||
+        huge_block_len(l.data) != n * sizeof(uint64_t)) {
+        mon_violation("C09:giant:shrink-size", "after shrink_to_fit of %zu eight-byte elements: length %zu, capacity %zu, current_size %zu, data %p", n, aws_array_list_length(&l),
+                      aws_array_list_capacity(&l), l.current_size, l.data);
+    } else {
+        for (size_t i = 0; i < NM; ++i) {
+            uint64_t got = 0;
+            aws_array_list_get_at(&l, &got, MARK_AT[i]);
+            if (got != 0xABCD000000000000ULL + i) {
+                mon_violation("C09:giant:contents", "after shrink_to_fit of %zu eight-byte elements (%zu bytes live): element %zu reads %016llx, expected %016llx", n,
+                              n * sizeof(uint64_t), MARK_AT[i], (unsigned long long)got, (unsigned long long)(0xABCD000000000000ULL + i));
+                break;
+            }
+        }
+        uint64_t b = 0;
+        aws_array_list_back(&l, &b);
+        if (b != last) {
+            mon_violation("C09:giant:contents", "after shrink_to_fit of %zu eight-byte elements back() is %016llx, the last element was %016llx", n, (unsigned long long)b,
+                          (unsigned long long)last);
+        }
+    }
+    aws_array_list_clean_up(&l);
+    if (s_hacq != s_hrel) {
+        mon_violation("C09:huge:allocator-balance", "giant shrink: %d blocks obtained, %d released", s_hacq, s_hrel);
+    }
+    mon_flag(F_GIANT_SHRINK);
+    mon_count("giant_shrink_to_fit_of_4GiB_live", 1);
+    return true;
+}
+
 int main(int argc, char **argv) {
     mon_init(argc, argv, "C09");
     aws_common_library_init(aws_default_allocator());
@@ -1746,6 +1809,7 @@ int main(int argc, char **argv) {
         {F_POP_FRONT_N_HUGE, "pop_front_n_huge_count"},
         {F_HUGE_LIST, "dynamic_list_storage_4GiB_or_more"},
         {F_GIANT_ERASE, "erase_near_front_of_2GiB_byte_list"},
+        {F_GIANT_SHRINK, "shrink_to_fit_with_4GiB_live"},
         {F_SLICED_SWAP, "sliced_swap_item_gt_128"},
         {F_SORT_TIES, "sort_with_ties"},
         {F_COPY_REALLOC, "copy_into_smaller_dynamic"},
@@ -1802,6 +1866,10 @@ int main(int argc, char **argv) {
         bool giant = false;
 #ifndef DEBUG_BUILD
         giant = !linked && c == 511; /* once per -O2 stage run */
+        if (!linked && c == 767) { /* likewise */
+            mon_case_end(run_giant_shrink_case());
+            continue;
+        }
 #endif
         bool nontrivial = linked ? run_linked_case(c) : giant ? run_giant_erase_case() : (huge ? run_huge_array_case(c) : run_array_case(c));
         mon_case_end(nontrivial);
